@@ -142,6 +142,10 @@ func verifyChild() {
 		_, _ = imgfs.CopyTree(img.Dir, pristine, nil)
 		res := v.verifyImage(img, deep)
 		if unexpected := unexpectedClasses(res); len(unexpected) > 0 && res.Note["panicked"] == "" {
+			// the verdict has to be a property of the image: recover independent copies of it again and take the
+			// majority of three recoveries
+			pristine2 := img.Dir + ".pristine2"
+			_, _ = imgfs.CopyTree(pristine, pristine2, nil)
 			again := img
 			again.Dir = pristine
 			res2 := v.verifyImage(again, deep)
@@ -149,21 +153,41 @@ func verifyChild() {
 			for _, viol := range res2.Violations {
 				second[viol.Class] = true
 			}
+			var res3 *imgResult
+			third := map[string]bool{}
+			var kept []core.Violation
 			for i := range res.Violations {
-				cls := res.Violations[i].Class
+				viol := res.Violations[i]
+				cls := viol.Class
 				if isExpectedClass(cls) {
+					kept = append(kept, viol)
 					continue
 				}
 				if second[cls] {
-					res.Violations[i].Message += " [a second recovery of a pristine copy of the image shows the same]"
-				} else {
-					// the two recoveries of one image disagree: not a property of the image but of the recovery run
-					res.Counters["violations."+cls+"/not-reproduced-by-a-second-recovery-of-the-same-image"] = res.Counters["violations."+cls]
-					delete(res.Counters, "violations."+cls)
-					res.Violations[i].Class = cls + "/not-reproduced-by-a-second-recovery-of-the-same-image"
-					res.Violations[i].Message += fmt.Sprintf(" [a second recovery of a pristine copy of the image does not show it; it reports %v]", classesOf(res2))
+					viol.Message += " [a second recovery of a pristine copy of the image shows the same]"
+					kept = append(kept, viol)
+					continue
 				}
+				if res3 == nil {
+					again.Dir = pristine2
+					res3 = v.verifyImage(again, deep)
+					for _, v3 := range res3.Violations {
+						third[v3.Class] = true
+					}
+				}
+				if third[cls] {
+					viol.Message += " [shown by two of three recoveries of copies of the image]"
+					kept = append(kept, viol)
+					continue
+				}
+				// one recovery out of three: not a property of the image (lindb's recovery or its query engine did not behave
+				// the same way three times); recorded, not a verdict of this property
+				delete(res.Counters, "violations."+cls)
+				res.Counters["verdicts_shown_by_only_one_of_three_recoveries_of_an_image"]++
+				res.Note["unrepeatable"] = fmt.Sprintf("%s %s [the other two recoveries of the same image report %v and %v]", cls, tailStr(viol.Message, 700), classesOf(res2), classesOf(res3))
 			}
+			res.Violations = kept
+			_ = os.RemoveAll(pristine2)
 		}
 		_ = os.RemoveAll(pristine)
 		data, _ := json.Marshal(res)
